@@ -9,7 +9,6 @@ use libtw2_packer::Unpacker;
 use libtw2_packer::Warning;
 use libtw2_packer::in_range;
 use libtw2_packer::positive;
-use libtw2_packer::to_bool;
 use libtw2_warn::Warn;
 use libtw2_warn::wrap;
 use std::fmt;
@@ -842,7 +841,7 @@ pub struct DdnetPickup {
 #[repr(C)]
 #[derive(Clone, Copy)]
 pub struct DdnetSpectatorInfo {
-    pub has_camera_info: bool,
+    pub has_camera_info: i32,
     pub zoom: i32,
     pub deadzone: i32,
     pub follow_factor: i32,
@@ -1732,7 +1731,7 @@ impl DdnetSpectatorInfo {
     }
     pub fn decode_inner(_p: &mut IntUnpacker) -> Result<DdnetSpectatorInfo, Error> {
         Ok(DdnetSpectatorInfo {
-            has_camera_info: to_bool(_p.read_int()?)?,
+            has_camera_info: in_range(_p.read_int()?, 0, 1)?,
             zoom: positive(_p.read_int()?)?,
             deadzone: positive(_p.read_int()?)?,
             follow_factor: positive(_p.read_int()?)?,
@@ -1740,6 +1739,7 @@ impl DdnetSpectatorInfo {
         })
     }
     pub fn encode(&self) -> &[i32] {
+        assert!(0 <= self.has_camera_info && self.has_camera_info <= 1);
         assert!(self.zoom >= 0);
         assert!(self.deadzone >= 0);
         assert!(self.follow_factor >= 0);
